@@ -66,6 +66,19 @@ class CSym:
             raise SymError("sqrt of a non-real complex value")
         return CSym(self.re.sqrt(), 0)
 
+    def __neg__(self):
+        return CSym(-self.re, -self.im)
+
+    def __rsub__(self, o):
+        return CSym.of(o) - self
+
+    def __abs__(self):
+        """|z| as a real symbol: the square-root atom of re^2 + im^2 (s >= 0, s^2 = re^2 + im^2), so that comparisons of moduli are
+        decided by the solver."""
+        if self.im.is_zero() and self.re.is_const():
+            return Sym.of(abs(self.re.const_value()))
+        return (self.re * self.re + self.im * self.im).sqrt()
+
     def __repr__(self):
         return "CSym(%s, %s)" % (self.re.short(3), self.im.short(3))
 
@@ -312,6 +325,79 @@ def sort_obligations(chk, es, tier, rng):
     chk.sample(dict(n=2, base=[[0.6, 0.8], [-0.8, 0.6]], target="signed permutation of the base + symbolic perturbation in [-0.05, 0.05]^(n x n)"))
 
 
+def complex_bases(n):
+    """Rational complex unitary matrices (rows = orthonormal vectors under the Hermitian product)."""
+    F = Fraction
+    if n == 2:
+        return [[[(F(3, 5), 0), (0, F(4, 5))], [(0, F(4, 5)), (F(3, 5), 0)]]]
+    if n == 3:
+        return [[[(F(3, 5), 0), (0, F(4, 5)), (0, 0)], [(0, F(4, 5)), (F(3, 5), 0), (0, 0)], [(0, 0), (0, 0), (0, 1)]]]
+    raise ValueError(n)
+
+
+def sort_obligations_complex(chk, es, tier, rng):
+    """evec_sort on complex unitary bases: target = permuted base vectors times phases in {1, i, -1, -i} plus a complex perturbation with
+    |re|, |im| <= 1/30 (|delta| < 0.05); the moduli |<base_i, target_j>| are square-root atoms and every argmax comparison is decided by z3."""
+    phases = [(1, 0), (0, 1), (-1, 0), (0, -1)]
+    for n in ([2] if tier == "quick" else [2, 3]):
+        for bi, base in enumerate(complex_bases(n)):
+            combos = [(p, ph) for p in itertools.permutations(range(n)) for ph in itertools.product(range(4), repeat=n)]
+            combos = rng.sample(combos, 2 if tier == "quick" else (6 if n == 2 else 3))
+            if tier == "quick":
+                combos[0] = (tuple(range(n)), tuple([0] * n))        # the base sorted against itself (plus perturbation)
+            for perm, ph in combos:
+                name = "evec_sort[complex unitary base, n=%d, perm %s, phases i^%s, |perturbation| < 0.05]" % (n, perm, ph)
+                ctx = new_context()
+                Dr = symvars("dre", (n, n), lo=Fraction(-1, 30), hi=Fraction(1, 30))
+                Di = symvars("dim", (n, n), lo=Fraction(-1, 30), hi=Fraction(1, 30))
+                items = ["item%d" % j for j in range(n)]
+                basel = [[CSym(Fraction(a), Fraction(b)) for a, b in row] for row in base]
+                target = []
+                for j in range(n):
+                    row = []
+                    for k in range(n):
+                        z = basel[perm[j]][k] * CSym(Fraction(phases[ph[j]][0]), Fraction(phases[ph[j]][1]))
+                        row.append(z + CSym(Dr[j, k], Di[j, k]))
+                    target.append(row)
+
+                def fn():
+                    return es.evec_sort(list(items), [list(r) for r in target], [list(r) for r in basel])
+                ex = X.Explorer(max_paths=600, name=name, decision_timeout_ms=8000)
+                t0 = time.time()
+                try:
+                    paths = ex.run(fn)
+                except X.PathBudgetExceeded as e:
+                    chk.out_of_claim("evec_sort complex n=%d: path budget exceeded (%s) -- not decided" % (n, e))
+                    continue
+                except SymError as e:
+                    chk.inconclusive(name, str(e))
+                    continue
+                want = [None] * n
+                for j in range(n):
+                    want[perm[j]] = items[j]
+                bad = [p for p in paths if p.exception is not None or p.result != want]
+                unk = any(p.feasibility_unknown for p in paths)
+                chk.obligation(name, "unsat" if not bad else "sat", seconds=round(time.time() - t0, 2), kind="all-paths", logic="QF_NRA",
+                               detail=dict(paths=len(paths), feasibility_unknown=unk))
+                if bad:
+                    p = bad[0]
+                    v, env = Z.satisfiable([], name=name + ":model", conds=p.path_condition())
+                    env = env or {}
+                    b = numpy.array([[complex(float(a), float(bb)) for a, bb in row] for row in base])
+                    t = numpy.array([[b[perm[j]][k] * complex(*phases[ph[j]]) + complex(env.get("dre_%d_%d" % (j, k), 0.0), env.get("dim_%d_%d" % (j, k), 0.0))
+                                      for k in range(n)] for j in range(n)])
+                    try:
+                        got = es.evec_sort(list(items), t.tolist(), b.tolist())
+                    except Exception as e:
+                        chk.violation("evec_sort:complex:raises", "evec_sort raises %s: %s on a complex unitary base" % (type(e).__name__, e), dict(base=str(b.tolist())))
+                        continue
+                    if got != want:
+                        chk.violation("evec_sort:complex:wrong-order", "evec_sort on a complex unitary base returns %s instead of %s (target = phased permutation "
+                                      "%s of the base + perturbation)" % (got, want, perm), dict(base=str(b.tolist()), target=str(t.tolist())))
+                    else:
+                        chk.harness_error("C20 evec_sort complex: path result %s / %s did not reproduce" % (p.result, p.exception))
+
+
 def replay_sort(chk, es, base, perm, signs, dl, want, what):
     n = len(base)
     b = numpy.array([[float(x) for x in r] for r in base])
@@ -483,13 +569,15 @@ def main():
     rng = random.Random(seed() + 20)
     disp2eig_obligations(chk, d2e, tier, rng)
     sort_obligations(chk, es, tier, rng)
+    sort_obligations_complex(chk, es, tier, rng)
     load_obligations(chk, tier, rng)
     chk.bound(disp2eig="M <= 2 rows, N <= 2 atoms", evec_sort="n = 2 (thorough: 3); rational orthonormal bases; all / seeded signed permutations; "
               "perturbation box [-0.05, 0.05]^(n x n); path budget 400 / 3000")
-    chk.assume("displacement rows non-zero, masses > 0; evec_sort bases are the listed rational orthonormal matrices (real phases +-1)")
+    chk.assume("displacement rows non-zero, masses > 0; evec_sort bases are the listed rational orthonormal (real, phases +-1) and rational "
+               "complex unitary (phases 1, i, -1, -i) matrices")
     chk.bound(evec_load="1-6 q-points, 3-9 modes; vector components symbolic (tokens), q coordinates / mode index / frequencies concrete and distinct")
     chk.stub("module-global `float` of evec_load.py -> token-aware float (a token becomes a (symbol, 0) complex pair, anything else the real float)")
-    chk.out_of_claim("dimensions 4-60; arbitrary (irrational / complex) unitary bases and complex phases for evec_sort; evec_load: float() "
+    chk.out_of_claim("dimensions 4-60; unitary bases with irrational entries and phases other than fourth roots of unity for evec_sort; evec_load: float() "
                      "parsing itself, fields of full width 10 (|component| >= 10, impossible for normalised vectors), the digit regexes on "
                      "symbolic text (q coordinates and frequencies are concrete)")
     return chk.finish("disp2eig: z3 proves unit norm and direction for all displacement rows and masses; evec_sort: the executor enumerates every "
